@@ -6,13 +6,50 @@ import ast
 import sympy as sp
 
 from . import AnalysisError
-from .symval import (GenVal, ReObj, SymObj, ClassVal, PropertyVal, Closure, BoundMethod, ModuleVal, Builtin,
+from .symval import (GenVal, TextFile, PathVal, ReObj, SymObj, ClassVal, PropertyVal, Closure, BoundMethod, ModuleVal, Builtin,
                      Raised, Phi, Vec, SymRaise, to_expr, merge, _alg, _MISSING)
 
 interp_f = sp.Function("interp")
 vec_f = sp.Function("vec")
 pymin = sp.Function("pymin", positive=True)
 pymax = sp.Function("pymax", positive=True)
+
+
+class NTuple(tuple):
+    """instance of a collections.namedtuple class: a tuple whose items also read as attributes"""
+    _fields = ()
+    _tname = "namedtuple"
+
+    def __repr__(self):
+        return f"{self._tname}({', '.join(f'{k}={v!r}' for k, v in zip(self._fields, self))})"
+
+
+class NTupleClass:
+    """the class made by collections.namedtuple(name, fields, defaults=...)"""
+    def __init__(self, name, fields, defaults=()):
+        self.name, self.fields, self.defaults = name, tuple(fields), tuple(defaults)
+
+    def make(self, args, kw):
+        n = len(self.fields)
+        if len(args) > n:
+            raise SymRaise("TypeError", f"{self.name}() takes {n} positional arguments")
+        vals = list(args)
+        for i in range(len(args), n):
+            f = self.fields[i]
+            if f in kw:
+                vals.append(kw.pop(f))
+            elif i >= n - len(self.defaults):
+                vals.append(self.defaults[i - (n - len(self.defaults))])
+            else:
+                raise SymRaise("TypeError", f"{self.name}() missing argument {f}")
+        if kw:
+            raise SymRaise("TypeError", f"{self.name}() got an unexpected keyword argument {sorted(kw)[0]}")
+        t = NTuple(vals)
+        t._fields, t._tname = self.fields, self.name
+        return t
+
+    def __repr__(self):
+        return f"<namedtuple class {self.name}>"
 
 
 class WeakDict(dict):
@@ -44,6 +81,12 @@ def binop(I, op, a, b):
     from . import peg
     if isinstance(a, peg.PE) or isinstance(b, peg.PE):
         return peg.binop(op.__class__.__name__, a, b)
+    if isinstance(op, ast.Div) and (isinstance(a, PathVal) or isinstance(b, PathVal)):
+        import os.path as _osp
+        x, y = (v.path if isinstance(v, PathVal) else v for v in (a, b))
+        if not (isinstance(x, str) and isinstance(y, str)):
+            raise AnalysisError("pathlib '/' with a symbolic operand")
+        return PathVal(_osp.join(x, y))
     if isinstance(a, Phi):
         return merge(a.cond, binop(I, op, a.a, b), binop(I, op, a.b, b))
     if isinstance(b, Phi):
@@ -655,6 +698,92 @@ def value_attr(I, obj, name):
             return Builtin("clear", lambda: obj.clear())
         if name == "count":
             return Builtin("count", lambda x: sp.Integer(sum(1 for y in obj if _same(x, y))))
+    if isinstance(obj, TextFile):
+        if name == "read":
+            return Builtin("read", lambda *a: "".join(obj.take_all()))
+        if name == "readlines":
+            return Builtin("readlines", lambda *a: obj.take_all())
+        if name == "readline":
+            def readline(*a):
+                if obj.pos < len(obj.items):
+                    obj.pos += 1
+                    return obj.items[obj.pos - 1]
+                return ""
+            return Builtin("readline", readline)
+        if name in ("close", "__exit__", "flush"):
+            return Builtin(name, lambda *a: None)
+        if name == "__enter__":
+            return Builtin(name, lambda: obj)
+        if name == "getvalue":
+            return Builtin(name, lambda: "".join(obj.items))
+        if name == "name":
+            return obj.name
+        if name == "seek":
+            def seek(n, *a):
+                if concrete_int(n) != 0:
+                    raise AnalysisError("file.seek to a non-zero offset")
+                obj.pos = 0
+                return sp.Integer(0)
+            return Builtin(name, seek)
+        raise AnalysisError(f"file method {name} is not modelled")
+    if isinstance(obj, PathVal):
+        import os.path as _osp
+        if name == "name":
+            return _osp.basename(obj.path)
+        if name == "suffix":
+            return _osp.splitext(_osp.basename(obj.path))[1]
+        if name == "stem":
+            return _osp.splitext(_osp.basename(obj.path))[0]
+        if name == "parent":
+            return PathVal(_osp.dirname(obj.path) or ".")
+        if name == "parts":
+            return tuple(x for x in obj.path.split("/") if x)
+        if name in ("joinpath",):
+            return Builtin(name, lambda *a: PathVal(_osp.join(obj.path, *[str(x.path if isinstance(x, PathVal) else x) for x in a])))
+        if name in ("open",):
+            return Builtin(name, lambda *a, **k: I.call(I.builtins["open"], [obj.path] + list(a), dict(k)))
+        if name == "read_text":
+            def read_text(*a, **k):
+                fh = I.call(I.builtins["open"], [obj.path], {})
+                return "".join(iterate(I, fh)) if not isinstance(fh, str) else fh
+            return Builtin(name, read_text)
+        if name in ("resolve", "absolute", "expanduser"):
+            return Builtin(name, lambda *a, **k: obj)
+        if name in ("as_posix", "__str__", "__fspath__"):
+            return Builtin(name, lambda: obj.path)
+        if name in ("exists", "is_file"):
+            return Builtin(name, lambda: True)
+        if name == "is_dir":
+            return Builtin(name, lambda: False)
+        if name == "with_suffix":
+            return Builtin(name, lambda sfx: PathVal(_osp.splitext(obj.path)[0] + sfx))
+        if name == "with_name":
+            return Builtin(name, lambda nm: PathVal(_osp.join(_osp.dirname(obj.path), nm)))
+        raise AnalysisError(f"pathlib.Path.{name} is not modelled")
+    if isinstance(obj, NTupleClass):
+        if name == "_fields":
+            return obj.fields
+        if name == "_make":
+            return Builtin("_make", lambda it: obj.make(list(iterate(I, it)), {}))
+        if name == "__name__":
+            return obj.name
+        raise SymRaise("AttributeError", f"{obj.name} has no attribute {name}")
+    if isinstance(obj, NTuple):
+        if name in obj._fields:
+            return obj[obj._fields.index(name)]
+        if name == "_fields":
+            return obj._fields
+        if name == "_asdict":
+            return Builtin("_asdict", lambda: dict(zip(obj._fields, obj)))
+        if name == "_replace":
+            def _replace(**kw):
+                bad = [k for k in kw if k not in obj._fields]
+                if bad:
+                    raise SymRaise("ValueError", f"unexpected field names {bad}")
+                t = NTuple([kw.get(f, v) for f, v in zip(obj._fields, obj)])
+                t._fields, t._tname = obj._fields, obj._tname
+                return t
+            return Builtin("_replace", _replace)
     if isinstance(obj, tuple) or isinstance(obj, list):
         if name == "index":
             return Builtin("index", lambda x: [i for i, y in enumerate(obj) if _same(x, y)][0])
@@ -845,6 +974,9 @@ def make_builtins(I):
                         if cc is k:
                             return True
                         q.extend(cc.bases)
+            elif isinstance(k, NTupleClass):
+                if isinstance(x, NTuple) and x._fields == k.fields and x._tname == k.name:
+                    return True
             elif isinstance(k, Builtin):
                 py = {"list": list, "tuple": tuple, "dict": dict, "str": str, "set": set}.get(k.name)
                 if py is not None and isinstance(x, py):
@@ -944,6 +1076,8 @@ def make_builtins(I):
     def b_str(x=""):
         if isinstance(x, str):
             return x
+        if isinstance(x, PathVal):
+            return x.path
         if isinstance(x, sp.Integer):
             return str(int(x))
         if x is None or isinstance(x, bool):
@@ -1029,6 +1163,10 @@ def make_builtins(I):
     reg("hash", lambda x: sp.Integer(x.id if isinstance(x, SymObj) else hash(x)))
     reg("staticmethod", lambda f: ("static", f))
     reg("copy.copy", b_copy)
+
+    def b_open(path, *a, **k):
+        raise AnalysisError(f"open({path!r}): the rule did not provide this file")
+    reg("open", b_open)
     for exc in ("ValueError", "TypeError", "KeyError", "RuntimeError", "AttributeError",
                 "AssertionError", "Exception", "IndexError", "ZeroDivisionError"):
         reg(exc, (lambda e: lambda *a, **k: I.new_obj(f"<{e}>"))(exc))
@@ -1069,6 +1207,7 @@ def external(I, dotted):
         real = getattr(_osp, name)
 
         def pathfn(*a):
+            a = [x.path if isinstance(x, PathVal) else x for x in a]
             if not all(isinstance(x, str) for x in a):
                 raise AnalysisError(f"os.path.{name} of a symbolic path")
             r = real(*a)
@@ -1132,6 +1271,39 @@ def external(I, dotted):
                 out.append(acc)
             return out
         return Builtin(dotted, accumulate)
+    if dotted in ("csv", "io", "pathlib"):
+        return ModuleVal(dotted, external=dotted)
+    if dotted == "io.StringIO":
+        def stringio(text=""):
+            if not isinstance(text, str):
+                raise AnalysisError("io.StringIO of a symbolic string")
+            return TextFile(text, "<StringIO>")
+        return Builtin(dotted, stringio)
+    if dotted == "csv.reader":
+        def reader(src, dialect="excel", **fmt):
+            import csv as _csv
+            lines = iterate(I, src) if not isinstance(src, str) else list(src)
+            if not all(isinstance(l, str) for l in lines):
+                raise AnalysisError("csv.reader over symbolic text")
+            return GenVal([list(r) for r in _csv.reader(lines, dialect, **fmt)])
+        return Builtin(dotted, reader)
+    if dotted in ("pathlib.Path", "pathlib.PurePath", "pathlib.PurePosixPath"):
+        def mkpath(*parts):
+            import os.path as _osp
+            ps = [x.path if isinstance(x, PathVal) else x for x in parts]
+            if not all(isinstance(x, str) for x in ps):
+                raise AnalysisError("pathlib.Path of a symbolic path")
+            return PathVal(_osp.join(*ps) if ps else ".")
+        return Builtin(dotted, mkpath)
+    if dotted == "collections.namedtuple":
+        def namedtuple(name, fields, defaults=None, rename=False, module=None):
+            if isinstance(fields, str):
+                fields = fields.replace(",", " ").split()
+            fields = [f for f in iterate(I, fields)] if not isinstance(fields, list) else fields
+            if not all(isinstance(f, str) for f in fields):
+                raise AnalysisError("namedtuple with symbolic field names")
+            return NTupleClass(name, fields, tuple(iterate(I, defaults)) if defaults is not None else ())
+        return Builtin(dotted, namedtuple)
     if dotted in ("collections.OrderedDict",):
         return I.builtins["dict"]
     if dotted in ("functools.lru_cache", "functools.cache", "functools.wraps", "functools.partial", "functools.reduce"):
